@@ -155,6 +155,9 @@ func propCfg(prop string) genCfg {
 		base.drainW = 25
 		base.kids = 0.3
 		base.idleW = 5
+		// transient write / sync failures: a failed round may leave a complete
+		// footer in the file that was never published; the walk must not show it
+		base.faults = "io-light"
 	case "C13":
 		base.backings = []string{"mapll"}
 		base.flags = []string{"verifyEach", "storeEach", "finalVerify", "finalDrain"}
